@@ -462,6 +462,11 @@ pub enum HMode {
     SameTag,
     /// only four distinct hashes
     LowEntropy,
+    /// well distributed, but `BuildHasher::hash_one` is overridden with a *different* function
+    /// than build_hasher + hash + finish (a one-shot fast path, as some hashers have): a table
+    /// that mixes the two ways of hashing loses its elements. Only used by workloads that never
+    /// hand precomputed hashes to the map (a map is free to use either way consistently).
+    OneShot,
 }
 pub const HMODES: [HMode; 6] = [
     HMode::Good,
@@ -512,6 +517,7 @@ fn finish(mode: HMode, seed: u64, acc: u64) -> u64 {
         // low bits vary, top 7 bits fixed
         HMode::SameTag => (mix(acc ^ seed) & 0x01FF_FFFF_FFFF_FFFF) | 0x5400_0000_0000_0000,
         HMode::LowEntropy => mix((acc % 4) ^ seed),
+        HMode::OneShot => mix(acc ^ seed),
     }
 }
 
@@ -540,6 +546,19 @@ impl BuildHasher for Bh {
     fn build_hasher(&self) -> BhHasher {
         HASHES.with(|h| h.set(h.get() + 1));
         BhHasher { mode: self.mode, seed: self.seed, acc: 0 }
+    }
+    fn hash_one<T: Hash>(&self, x: T) -> u64
+    where
+        Self: Sized,
+    {
+        let mut h = self.build_hasher();
+        x.hash(&mut h);
+        let v = h.finish();
+        if self.mode == HMode::OneShot {
+            v ^ 0x9E37_79B9_7F4A_7C15
+        } else {
+            v
+        }
     }
 }
 
